@@ -36,6 +36,15 @@ CHECKS["C02"] = dict(level="model_checking", design="5/C02",
    text="For 2.4 million accepted inputs (all slice programs, all token strings of length <= 4, all single-token edits/truncations of the corpus, a directed nested-function family) the bytecode produced by the real compiler is explored completely as an abstract stack machine (49 million states in the quick tier): no pop below the locals, every fetch and jump on an instruction boundary inside the code, operands in range, every path ends in Halt/Return, code of different function contexts disjoint. Every program is also executed on the real VM with probes on and every concrete step must be a state of the abstract graph (2.4 million traces, 47 million steps).",
    note="trusted: the 45-row stack-effect table of nlmc/src/bcmc.rs (kept bound to vm.rs by the conformance replay), the opcode-table hook, the probe sites; heights are explored exactly up to 96 slots above the frame base")
 
+CHECKS["C03"] = dict(level="model_checking", design="5/C03",
+   technique="breadth-first explicit-state search over collector operation histories executed on the real GC/Object code (state = reachability model + real internal object order + real mark bits), plus bounded-exhaustive enumeration of allocating programs run under a shadow heap with a post-condition at every collection and a liveness check at every dereference",
+   text="(a) All histories up to depth 6 over a universe of 3 objects (depth 8 / 4 objects thorough) of allocate / link (cycles included) / unlink / collect with every root subset / hand over / re-trace / drop-collector, each re-executed from scratch on the real collector: every object the reachability model considers live is still allocated with unchanged contents, nothing released twice (61 000 states, 225 000 transitions quick). (b) 630 000 programs of five slices run with the shadow heap: 67 000 of them run a collection while a heap object is live; reachable => allocated at every collection, no dereference of a released box, result graph alive, value/output/error equal to the reference interpreter.",
+   note="trusted: shadow-heap hooks in object.rs/gc.rs, the reachability model of heapmc.rs; the model follows the interpreter's ownership discipline (caller-owned objects never hold collector-managed ones); roots the VM forgets to pass are caught through their consequences")
+CHECKS["C04"] = dict(level="fault_enumeration", design="5/C04",
+   technique="the collector-history state graph with the dual invariant (allocated set == model live set, managed list == model managed set, empty ledger at the end), plus exhaustive crash-point enumeration: every program cut after k instructions for every k below its run length, with a full allocation ledger audit after each run",
+   text="5.4 million (program, abort point) runs in the quick tier: every second program of five allocating slices and the whole corpus is aborted after every instruction count below its length through the VM's ordinary error exit; after each run, and after the harness releases the result graph (each distinct box once), the ledger of boxes must be empty, nothing released twice, the result not already released. Plus the 61 000-state collector-history graph checked for exact agreement of the real allocated/managed sets with the model after every operation.",
+   note="trusted: the allocation ledger (allocate/destroy hooks), the instruction-budget hook as the injected fault; boxes not obtained through object.rs::allocate are invisible to the ledger")
+
 NOT_YET = {}
 props = [json.loads(l) for l in open("/verif/properties.jsonl")]
 checks = []
